@@ -318,7 +318,13 @@ static int remoteSync(MPT_INTERFACE(output) *out, int timeout)
 			msg.cont = 0;
 			msg.clen = 0;
 			
-			pos = ans->cmd(ans->arg, &msg);
+			/* answered request is done with: unlink before call (handler may change the table) */
+			{
+				int (*fcn)(void *, void *) = ans->cmd;
+				void *arg = ans->arg;
+				ans->cmd = 0;
+				pos = fcn(arg, &msg);
+			}
 			/* processed reply must not remain as output data */
 			if (!(od->con.out.state & MPT_OUTFLAG(Active))
 			    && (buf = od->con.out.buf._buf)) {
